@@ -506,7 +506,7 @@ impl Drop for MemoryMap {
         #[cfg(simple_sds_verif)]
         use crate::verif_io::sys as libc;
         unsafe {
-            let _ = libc::munmap(self.ptr.cast::<libc::c_void>(), self.len);
+            let _ = libc::munmap(self.ptr.cast::<libc::c_void>(), bits::words_to_bytes(self.len));
         }
     }
 }
